@@ -63,6 +63,15 @@ def gen(rng, tier, index):
         scene["gravity"] = [0.0, 0.0, -9.81]
     if scene.get("gravity") is None and not scene["laws"]:
         scene["gravity"] = [0.0, 0.0, -9.81]
+    if rng.random() < 0.3:
+        # released from rest (the most common way to start a pendulum)
+        for b in scene["bodies"]:
+            b["v"] = [0.0, 0.0, 0.0]
+            if b["kind"] == "rigid":
+                b["w"] = [0.0, 0.0, 0.0]
+        if scene.get("gravity") is None:
+            scene["gravity"] = [0.0, 0.0, -9.81]
+        scene["from_rest"] = True
     dt = float(10 ** rng.uniform(-2.6, -2.0))
     plan = {"scene": scene, "mode": mode, "dt": dt}
     if mode == "reverse":
@@ -237,6 +246,7 @@ def execute(plan, out, log):
             bool(sc["laws"]),
             any(j.get("loop") for j in sc["joints"]),
             tuple(sorted(b["kind"] for b in sc["bodies"])),
+            bool(sc.get("from_rest")),
         )
     )
 
